@@ -175,6 +175,20 @@ def apply(src, edits, flags):
                     l.sep2 = SEPS[(param + 3 * i + 1) % len(SEPS)]
                 changed.add(i)
                 stats["kinds"].add(kind)
+            elif kind == "wsarg" and l.args and not l.quote and re.search(r"[ \t]", l.args.strip()):
+                # white space inside the operand field (blank-separated sub-statements such as `rptz r6 rrcx r7`,
+                # `op mov @a,non`, `[a1] add .l1 ...`): every run is replaced by another run of blanks and tabs
+                k = [0]
+
+                def other(m, k=k, i=i):
+                    k[0] += 1
+                    new = SEPS[(param + i + 2 * k[0]) % len(SEPS)]
+                    return new if new != m.group(0) else SEPS[(param + i + 2 * k[0] + 1) % len(SEPS)]
+                body = l.args.strip()
+                l.args = l.args[:len(l.args) - len(l.args.lstrip())] + re.sub(r"[ \t]+", other, body) + \
+                    l.args[len(l.args.rstrip()):]
+                changed.add(i)
+                stats["kinds"].add(kind)
             elif kind == "cmtadd" and not l.comment and not l.quote and (l.label or l.mnemo):
                 l.comment = "; added %d" % i
                 l.lead = SEPS[(param + i) % len(SEPS)]
